@@ -27,6 +27,12 @@ impl Rd for Vector4<X> {
     }
 }
 
+impl Rd for Quaternion<X> {
+    fn rd(a: &mut Args) -> Self {
+        a.q()
+    }
+}
+
 fn generic<V>(op: &str) -> Option<OpFn>
 where
     V: Rd
